@@ -115,6 +115,8 @@ func (o op) String() string {
 			return "Truncate(f," + o.argClass() + ")"
 		case "P.Rename":
 			return "Rename(f,g)"
+		case "P.ReplaceF":
+			return "WriteFile(r,new);Rename(r,f)"
 		case "P.Link":
 			return "Link(f,g)"
 		case "P.RemoveF":
@@ -249,7 +251,9 @@ func buildFileOps(slots int, full bool) []op {
 		ops = append(ops, op{Kind: "P.Truncate", Off: o, Slot: -1})
 	}
 
-	for _, k := range []string{"P.Rename", "P.Link", "P.RemoveF", "P.RemoveG", "P.ReadFile", "P.Stat"} {
+	// P.ReplaceF: another file is renamed over f (rename(2) unlinks the replaced
+	// file as unlink(2) does: handles open on it keep working on the old content)
+	for _, k := range []string{"P.Rename", "P.ReplaceF", "P.Link", "P.RemoveF", "P.RemoveG", "P.ReadFile", "P.Stat"} {
 		ops = append(ops, op{Kind: k, Off: -1, Slot: -1})
 	}
 
@@ -821,6 +825,17 @@ func (s *fsys) pathCall(kernel bool, o op, sz int64) res {
 			err = os.Rename(s.fp, s.gp)
 		} else {
 			err = s.v.Rename(s.fp, s.gp)
+		}
+	case "P.ReplaceF":
+		rp := filepath.Join(filepath.Dir(s.fp), "r")
+		if kernel {
+			if err = os.WriteFile(rp, []byte("new"), 0o644); err == nil {
+				err = os.Rename(rp, s.fp)
+			}
+		} else {
+			if err = s.v.WriteFile(rp, []byte("new"), 0o644); err == nil {
+				err = s.v.Rename(rp, s.fp)
+			}
 		}
 	case "P.Link":
 		if kernel {
